@@ -839,3 +839,71 @@ class OBJ:
             out.append("names:scanner-chars")
         out.append("rf=raised" if res["ab"][1] is None else "rf=value")
         return out
+
+
+# =====================================================================================
+# Raw scanner cases: get_bipartition on arbitrary texts (correspondence of the scanner model only)
+# =====================================================================================
+SC_ALPHA = "ab'_ :();,-x"
+
+
+def gen_scanner_case(rng):
+    c = rng.random()
+    if c < 0.35:
+        n = rng.randint(1, 14)
+        return {"text": "".join(rng.choice(SC_ALPHA) for _ in range(n))}
+    pool = rng.choice(ODD_POOLS + NAME_POOLS)
+    n = rng.choice([3, 4, 5, 6, 7])
+    t = add_lengths(rng, random_topology(rng, rng.sample(pool, n), rng.choice([0.2, 0.5])),
+                    rng.choice(["none", "all", "some"]))
+    s = owrite(t, rng.random() < 0.5) if c < 0.8 else write(t)       # quoted as the writer would / names verbatim
+    if rng.random() < 0.15:                                           # damage the text a little
+        i = rng.randrange(len(s))
+        s = s[:i] + rng.choice(["", "(", ")", ",", " ", "'"]) + s[i + rng.choice([0, 1]):]
+    return {"text": s}
+
+
+class SCAN:
+    IMPORTS = IMPORTS
+    BITS = {0: "correspondence: the model of get_bipartition differs from the implementation on this text"}
+
+    @staticmethod
+    def run_impl(case):
+        from lingpy.algorithm import TreeDist
+        try:
+            parts, lang = TreeDist.get_bipartition(case["text"])
+            return {"out": [[sorted(k) for k in parts.keys()], sorted(lang)]}
+        except (ValueError, IndexError):
+            return {"out": None}
+
+    @staticmethod
+    def render(case, res):
+        cx = _Ctx()
+        return cx.wrap(L.record("sc_case", [cx.s(case["text"]), cx.bip(res["out"])]))
+
+    @staticmethod
+    def nontrivial(case, res):
+        return res["out"] is not None and len(res["out"][0]) > 0
+
+    @staticmethod
+    def jsonable(case, res=None):
+        c = dict(case)
+        if res is not None:
+            c["impl"] = res
+        return c
+
+    @staticmethod
+    def from_json(c):
+        return {"text": c["text"]}
+
+    @staticmethod
+    def shrink(case):
+        s = case["text"]
+        for i in range(len(s)):
+            yield {"text": s[:i] + s[i + 1:]}
+
+    @staticmethod
+    def classify(case, res):
+        s = case["text"]
+        return ["raised" if res["out"] is None else "parts=%d" % min(len(res["out"][0]), 3),
+                "quote" if "'" in s else "noquote", "blank" if " " in s else "noblank"]
